@@ -746,6 +746,16 @@ def _resolve_mcs_deps(obj, resolved, dynamic, intermediate=True):
     return dependencies
 
 
+def _getattr_slot(obj, path, what):
+    """Attribute `what` of the Parameter reached from obj through path ('b.x'), or None."""
+    *subobjs, pname = path.split('.')
+    for attr in subobjs:
+        obj = getattr(obj, attr, None)
+    if not isinstance(obj, Parameterized) or pname not in obj.param:
+        return None
+    return getattr(obj.param[pname], what, None)
+
+
 def _skip_event(*events, **kwargs):
     """
     Check whether a subobject event should be skipped.
@@ -765,12 +775,15 @@ def _skip_event(*events, **kwargs):
         if subpaths is None:
             return False
         for p in subpaths:
-            if what == 'value':
+            # a sub-path may carry what is depended on at its end, e.g.
+            # ('b.x', 'bounds') for the dependency 'a.b.x:bounds'
+            p, pwhat = p if isinstance(p, tuple) else (p, what)
+            if pwhat == 'value':
                 old = Undefined if e.old is None else _getattrr(e.old, p, None)
                 new = Undefined if e.new is None else _getattrr(e.new, p, None)
             else:
-                old = Undefined if e.old is None else _getattrr(e.old.param[p], what, None)
-                new = Undefined if e.new is None else _getattrr(e.new.param[p], what, None)
+                old = Undefined if e.old is None else _getattr_slot(e.old, p, pwhat)
+                new = Undefined if e.new is None else _getattr_slot(e.new, p, pwhat)
             if not Comparator.is_equal(old, new):
                 return False
     return True
@@ -2427,7 +2440,8 @@ class Parameters:
                     subparams[pdep.name] = None
                 elif subparams.get(pdep.name, []) is not None:
                     subparams.setdefault(pdep.name, []).extend(
-                        sp for sp in dsubparams if sp not in subparams[pdep.name])
+                        (sp, dwhat) for sp in dsubparams
+                        if (sp, dwhat) not in subparams[pdep.name])
 
         mcaller = _m_caller(obj, name, what, subparams, callback)
         return dep_obj.param._watch(
